@@ -1,7 +1,31 @@
 //! Scenario crate `scn-competition` (chain-level simulation on the chainsim runtime).
+//!
+//! C39 "The competition leaderboard is the top traders by volume".
 
-pub const PROPERTIES: &[&str] = &[];
+pub mod forge;
+pub mod model;
+pub mod real;
+pub mod sim;
 
-pub fn registry(_property: &str) -> Option<simcore::CheckSpec> {
-    None
+use simcore::{CheckSpec, Part};
+
+pub const PROPERTIES: &[&str] = &["C39"];
+
+pub fn registry(property: &str) -> Option<CheckSpec> {
+    match property {
+        "C39" => Some(CheckSpec {
+            property: "C39",
+            level: "exploration",
+            parts: vec![
+                Part::new(sim::CompetitionSim, 200_000, 4_000_000),
+                Part::new(real::CompetitionReal, 1_500, 30_000),
+            ],
+            assumptions: vec![
+                "a trade is 'counted' when the documented rules say so: the order succeeded, the cluster time is inside [start_time, end_time], a trade event of that trader is attached and the (absolute / increase-only) change of size_in_usd is non-zero".into(),
+                "totals saturate at u128::MAX (big-integer sum clamped), as the program documents with saturating_add".into(),
+                "the store side of the callback is forged (callback-authority PDA flagged as signer, trade-event account written directly); the `competition_real_store` part checks on real orders that the forged instruction and event equal what gmsol_store sends".into(),
+            ],
+        }),
+        _ => None,
+    }
 }
